@@ -62,12 +62,13 @@ def confirm(item):
     runpat = "^(%s)$" % "|".join(tests)
     target = os.path.join(wt, ddir, "zz_seeded_demo_test.go")
     shutil.copy(demo_path, target)
-    rc1, out1 = sh("go test -vet=off -count=1 -run '%s' . 2>&1 | tail -15" % runpat, os.path.join(wt, ddir), timeout=900)
+    race = "-race " if re.search(r"go test[^\n]*-race", demo[:3000]) else ""     # demonstrations of data races ask for the race detector
+    rc1, out1 = sh("go test %s-vet=off -count=1 -run '%s' . 2>&1 | tail -15" % (race, runpat), os.path.join(wt, ddir), timeout=900)
     res["demo_with_change"] = "FAIL" if rc1 != 0 or "FAIL" in out1 else "pass"
     res["demo_with_change_tail"] = out1[-600:]
     # … and passes without it
     sh("git apply -R %s" % patch_path, wt)
-    rc2, out2 = sh("go test -vet=off -count=1 -run '%s' . 2>&1 | tail -5" % runpat, os.path.join(wt, ddir), timeout=900)
+    rc2, out2 = sh("go test %s-vet=off -count=1 -run '%s' . 2>&1 | tail -5" % (race, runpat), os.path.join(wt, ddir), timeout=900)
     res["demo_without_change"] = "pass" if ("ok" in out2 and "FAIL" not in out2) else "FAIL: " + out2[-300:]
     os.remove(target)
     confirmed = res["demo_with_change"] == "FAIL" and res["demo_without_change"] == "pass"
@@ -83,7 +84,7 @@ def confirm(item):
                 "what_i_ran": {"base": "jilio/ebu at %s (scratch worktree, removed afterwards)" % head[:7],
                                "build": "go build ./... in every module: ok",
                                "suite_with_change": suite,
-                               "demo": "copied to %s as zz_seeded_demo_test.go; go test -run '%s': FAILS with the change, passes without" % (ddir, runpat)},
+                               "demo": "copied to %s as zz_seeded_demo_test.go; go test %s-run '%s': FAILS with the change, passes without" % (ddir, race, runpat)},
                 "author": "independent sub-agent given only the property text and its own scratch worktree",
                 "detected_by": None}
         json.dump(meta, open(os.path.join(d, "meta.json"), "w"), indent=1)
